@@ -161,7 +161,7 @@ class DirectedWeightedGraph : private LabeledDirectedGraph<EdgeWeight> {
     ) {
         if (hasEdge(source, destination)) {
             auto &currentWeight = edgeLabels[{source, destination}];
-            totalWeight += newWeight - currentWeight;
+            totalWeight += (long double)newWeight - currentWeight;
             currentWeight = newWeight;
         } else {
             addEdge(source, destination, newWeight);
